@@ -38,6 +38,103 @@ func protect(f func() string) (res string) {
 	return f()
 }
 
+// The byte-slice entry points are called on a REUSED buffer: every input is copied to the end of one
+// arena, so that inputs of the same length occupy the same memory one after the other, as a caller that
+// refills a buffer would have it. Anything the package remembers about a slice by its address and length
+// instead of its contents is then stale at once. (Sequential stages only; off in the stress run.)
+var (
+	useArena bool
+	arena    = make([]byte, 1<<16)
+)
+
+func viaArena(b []byte) []byte {
+	if !useArena || len(b) == 0 || len(b) > len(arena) {
+		return b
+	}
+	dst := arena[len(arena)-len(b):]
+	copy(dst, b)
+	return dst[:len(b):len(b)]
+}
+
+// oneCall makes one First*/Step call on rest (byte form, or string form when str) and returns the segment
+// length, the segment's entry in the canonical chain format and the new state.
+func oneCall(kind string, str bool, rest []byte, st int) (int, string, int) {
+	if !str {
+		switch kind {
+		case "fg":
+			seg, _, w, ns := u.FirstGraphemeCluster(rest, st)
+			return len(seg), fmt.Sprintf("%d:%d:%d", len(seg), w, ns), ns
+		case "fw":
+			seg, _, ns := u.FirstWord(rest, st)
+			return len(seg), fmt.Sprintf("%d:%d", len(seg), ns), ns
+		case "fs":
+			seg, _, ns := u.FirstSentence(rest, st)
+			return len(seg), fmt.Sprintf("%d:%d", len(seg), ns), ns
+		case "fl":
+			seg, _, mb, ns := u.FirstLineSegment(rest, st)
+			return len(seg), fmt.Sprintf("%d:%d:%d", len(seg), b2i(mb), ns), ns
+		default:
+			seg, _, bd, ns := u.Step(rest, st)
+			return len(seg), fmt.Sprintf("%d:%d:%d", len(seg), bd, ns), ns
+		}
+	}
+	rs := string(rest)
+	switch kind {
+	case "fg":
+		seg, _, w, ns := u.FirstGraphemeClusterInString(rs, st)
+		return len(seg), fmt.Sprintf("%d:%d:%d", len(seg), w, ns), ns
+	case "fw":
+		seg, _, ns := u.FirstWordInString(rs, st)
+		return len(seg), fmt.Sprintf("%d:%d", len(seg), ns), ns
+	case "fs":
+		seg, _, ns := u.FirstSentenceInString(rs, st)
+		return len(seg), fmt.Sprintf("%d:%d", len(seg), ns), ns
+	case "fl":
+		seg, _, mb, ns := u.FirstLineSegmentInString(rs, st)
+		return len(seg), fmt.Sprintf("%d:%d:%d", len(seg), b2i(mb), ns), ns
+	default:
+		seg, _, bd, ns := u.StepString(rs, st)
+		return len(seg), fmt.Sprintf("%d:%d:%d", len(seg), bd, ns), ns
+	}
+}
+
+// realChainInterleaved: the chain over b, with one call of the same entry point on another text (its own
+// rest and state, starting over when it is used up) between any two calls: two texts "in flight" at once,
+// as two iterators advanced alternately are. The result must be realChain(kind, b, str).
+func realChainInterleaved(kind string, b, other []byte, str bool) string {
+	enter(b, kindName[map[string]string{"fg": "fg", "fw": "fw", "fs": "fs", "fl": "fl", "st": "st", "sts": "st"}[kind]]+" chain, interleaved with another text")
+	defer leave()
+	return protect(func() string {
+		var parts []string
+		rest, st := b, -1
+		orest, ost := other, -1
+		for len(rest) > 0 {
+			if len(parts) > len(b)+1 {
+				return "LOOP"
+			}
+			if len(orest) == 0 {
+				orest, ost = other, -1
+			}
+			if len(orest) > 0 {
+				n, _, ns := oneCall(kind, str, orest, ost)
+				if n <= 0 || n > len(orest) {
+					orest = nil
+				} else {
+					orest, ost = orest[n:], ns
+				}
+			}
+			n, part, ns := oneCall(kind, str, rest, st)
+			parts = append(parts, part)
+			if n <= 0 || n > len(rest) {
+				parts = append(parts, "STUCK")
+				break
+			}
+			rest, st = rest[n:], ns
+		}
+		return strings.Join(parts, " ")
+	})
+}
+
 // realChain: all segments from state -1, in the protocol's canonical format. str selects the
 // string-typed twin.
 func realChain(kind string, b []byte, str bool) string {
@@ -47,7 +144,7 @@ func realChain(kind string, b []byte, str bool) string {
 		var parts []string
 		st := -1
 		if !str {
-			rest := b
+			rest := viaArena(b)
 			for len(rest) > 0 {
 				if len(parts) > len(b)+1 {
 					return "LOOP"
